@@ -713,6 +713,8 @@ func (p *Parser) GroupByClause() ([]ColumnReference, error) {
 			break
 		}
 		ret = append(ret, cr)
+		// grouping columns are comma separated; the comma may be omitted
+		p.match(COMMA)
 	}
 
 	return ret, nil
